@@ -28,6 +28,8 @@ UNDERLIES = {
     # earlier statements are written" and "stop loses nothing ... including statements of threads that already exited" (seed r6d-1)
     'BW.cleanup_pred': {'C06', 'C07'}, 'BW.update_cache_lambda': {'C06', 'C07'}, 'BW.update_cache': {'C06', 'C07'}, 'TCM.register': {'C06', 'C07'}, 'TCM.remove': {'C06', 'C07'},
     'LEM.pipeline': {'C06', 'C07'}, 'BW.queues_empty': {'C06'},
+    # a logger freed while statements logged through it are still pending loses them (seed C03-H5)
+    'LM.cleanup': {'C03'}, 'BW.cleanup_loggers': {'C03'},
     'TEB.front': {'C06', 'C07'}, 'TEB.pop_front': {'C06', 'C07'}, 'TEB.back': {'C06', 'C07'}, 'TEB.push_back': {'C06', 'C07'}, 'TEB.expand': {'C06', 'C07'},
     'TEB.empty': {'C05', 'C06', 'C07'}, 'TEB.size': {'C05', 'C06', 'C07'}, 'TEB.try_shrink': {'C06', 'C07'},
 }
